@@ -44,6 +44,9 @@ def make_gateway(group, kind, execmodel, python=None, tag="g"):
     if kind == "via":
         m = group.makegateway(f"popen//python={py}//id={tag}m" if python else f"popen//id={tag}m")
         return group.makegateway(f"popen//via={m.id}//execmodel={execmodel}//id={tag}" + (f"//python={py}" if python else ""))
+    if kind == "socket_gevent_host":  # a socket server hosted by a gevent gateway: the worker's reads and writes are cooperative
+        m = group.makegateway(f"popen//execmodel=gevent//id={tag}m")
+        return group.makegateway(f"socket//installvia={m.id}//execmodel=gevent//id={tag}")
     if kind == "ssh":  # needs an `ssh` on PATH (the checks put a stand-in there that hands the command line to /bin/sh, as sshd does)
         return group.makegateway(f"ssh=fakehost//python={py}//execmodel={execmodel}//id={tag}")
     if kind == "vagrant":
